@@ -5,6 +5,7 @@ import (
 	"context"
 	"fmt"
 	"io"
+	"strings"
 	"testing"
 	"testing/synctest"
 	"time"
@@ -794,3 +795,88 @@ func TestC10(t *testing.T) {
 }
 
 var _ = synctest.Wait
+
+// TestC10AfterRefusal: "a context bounds only its own call". Our Close frame is out and the peer
+// takes 3 s to answer it; in between the application (or the reader, answering a Ping of the
+// peer) attempts one more frame under a context of its own. That frame is refused - nothing may
+// follow a Close frame - and the call returns. Its context ending afterwards (cancelled by the
+// application; released by the library for its own Pong) must leave the connection alone:
+// the close handshake completes when the peer's Close frame arrives, not before, and Close
+// returns nil. No compression (a message writer refused in the middle of a message is another
+// matter). Enumerated: role x what is attempted x when its context ends.
+func TestC10AfterRefusal(t *testing.T) {
+	rec := evid.For("C10")
+	for _, client := range []bool{false, true} {
+		for _, what := range []string{"write", "ping", "peer-ping", "write+ping"} {
+			for _, cancelAfter := range []time.Duration{0, 200 * time.Millisecond, time.Second} {
+				desc := fmt.Sprintf("afterrefusal|client=%v|%s|cancel+%v", client, what, cancelAfter)
+				var msg string
+				synctest.Test(t, func(t *testing.T) {
+					e := newEnv(t)
+					defer e.Teardown()
+					lc, err := e.open(connSpec{Client: client})
+					if err != nil {
+						msg = "handshake: " + err.Error()
+						return
+					}
+					p := lc.Peer
+					t0 := time.Now()
+					p.onFrame = func(f ref.Frame) {
+						if f.Opcode == ref.OpClose {
+							pl := f.Payload
+							e.Go(func() {
+								if e.sleep(3 * time.Second) {
+									p.send(ref.Frame{Fin: true, Opcode: ref.OpClose, Payload: pl})
+								}
+							})
+						}
+					}
+					p.start(e)
+					var cerr error
+					cd := e.Call(func() { cerr = lc.C.Close(websocket.StatusNormalClosure, "bye") })
+					e.sleep(time.Second)
+					ctx, cancel := context.WithCancel(context.Background())
+					defer cancel()
+					var d []<-chan struct{}
+					if strings.Contains(what, "write") {
+						d = append(d, e.Call(func() { lc.C.Write(ctx, websocket.MessageText, []byte("too late")) }))
+					}
+					if strings.HasSuffix(what, "ping") && what != "peer-ping" {
+						d = append(d, e.Call(func() { lc.C.Ping(ctx) }))
+					}
+					if what == "peer-ping" {
+						p.send(ref.Frame{Fin: true, Opcode: ref.OpPing, Payload: []byte("still there?")})
+					}
+					e.sleep(cancelAfter)
+					cancel()
+					for _, x := range d {
+						if !within(x, 10*time.Second) {
+							msg = "the refused call did not return"
+							return
+						}
+					}
+					if !within(cd, 20*time.Second) {
+						msg = "Close did not return"
+						return
+					}
+					closed, at := lc.Lib.Closed()
+					if !closed {
+						msg = "the connection was not closed after the handshake"
+						return
+					}
+					if early := t0.Add(3 * time.Second).Sub(at); early > 0 {
+						msg = fmt.Sprintf("the transport was closed %v before the peer's Close frame was due (at +%v): a frame attempted after our Close frame was refused, and the end of ITS context tore the connection down in the middle of the close handshake (Close returned %v)", early, at.Sub(t0), cerr)
+						return
+					}
+					if cerr != nil {
+						msg = fmt.Sprintf("the peer echoed the Close frame after 3 s but Close returned %v", cerr)
+					}
+				})
+				rec.Case(true, desc, "frame-refused-after-our-close-frame-then-its-context-ends")
+				if msg != "" {
+					failCase(t, "C10", desc, "%s", msg)
+				}
+			}
+		}
+	}
+}
